@@ -325,8 +325,14 @@ impl<A: Clone> RangeMap<A> {
 
                         // (1)
                         if *overlap.start() == old_range_.start {
-                            old_range_.start = *overlap.end() + 1;
-                            removed_range = removed_ranges_iter.next();
+                            if *overlap.end() == old_range_.end {
+                                // Old range is removed entirely. The removed range may overlap
+                                // with the next old range too, so keep it.
+                                old_range = old_ranges_iter.next();
+                            } else {
+                                old_range_.start = *overlap.end() + 1;
+                                removed_range = removed_ranges_iter.next();
+                            }
                         }
                         // (2)
                         else if *overlap.end() == old_range_.end {
